@@ -6,6 +6,7 @@ Translator leg: thin wrappers that the model defines as plain delegation.
 are the delegations the model assumes (Vanilla's `decrypt_client_header` is the one method that rebuilds the header by hand, and is modelled so).
 -/
 import WowSrp.Gen.Constants
+import WowSrp.Gen.Facts
 namespace WowSrp
 
 def expected_facadeBodiesVanilla : List (List String) := [["encrypt: {self.encrypt.encrypt(data);}", "write_encrypted_server_header: {self.encrypt.write_encrypted_server_header(write,size,opcode)}", "write_encrypted_client_header: {self.encrypt.write_encrypted_client_header(write,size,opcode)}", "encrypt_server_header: {self.encrypt.encrypt_server_header(size,opcode)}", "encrypt_client_header: {self.encrypt.encrypt_client_header(size,opcode)}", "decrypt: {self.decrypt.decrypt(data);}", "read_and_decrypt_server_header: {self.decrypt.read_and_decrypt_server_header(reader)}", "read_and_decrypt_client_header: {self.decrypt.read_and_decrypt_client_header(reader)}", "decrypt_server_header: {self.decrypt.decrypt_server_header(data)}", "decrypt_client_header: {self.decrypt(&mutdata);letsize:u16=u16::from_be_bytes([data[0],data[1]]);letopcode:u32=u32::from_le_bytes([data[2],data[3],data[4],data[5]]);ClientHeader{size,opcode}}", "split: {(self.encrypt,self.decrypt)}"]]
